@@ -170,3 +170,6 @@ _extend('C24', 'ADDED (unit I-scan): IndexData::range_scan never calls BTreeMap:
 _extend('C02', 'ADDED (unit I-maint): the per-index maintenance step of INSERT / UPDATE / DELETE on the CREATE INDEX indexes (in-memory arm) has exactly the stated effect on the key -> positions map, '
         'with key components built from the named column, prefix-truncated and normalized; the loop over the index registry around it is not under contract. Prefix indexes are '
         'used as a plain row source only (fix 5f8dd171; execute_index_scan is glue outside the units).')
+
+_extend('C10', 'ADDED (unit K-replace): REPLACE INTO deletes exactly the stored rows that collide with the new row on the PRIMARY KEY or on a NULL-free UNIQUE key (handle_replace_conflicts: '
+        'its match-building head and the conflicts closure, lifted); the delete_where call and the following INSERT are by units K-table / K-pk / K-rowval.')
